@@ -15,7 +15,8 @@ Record blobm := {
   m_ctime : option Z;             (* PermanodeAnyTime *)
   m_attrs : list (N * list N);    (* current values per attribute (owner's claims) *)
   m_ntypes : list N;              (* camliNodeType values ever claimed (permanodesSetByNodeType) *)
-  m_whole : N                     (* wholeRef of a file, 0 = none *)
+  m_whole : N;                    (* wholeRef of a file, 0 = none *)
+  m_kids : list N                 (* live edges: the current camliMember / camliPath:* values that are blobrefs *)
 }.
 Definition world := list blobm.
 
@@ -32,7 +33,8 @@ Inductive cst :=
        (whole : N)                    (* FileConstraint{WholeRef}, 0 = unset *)
        (size : option (N * N))        (* BlobSize{min,max} *)
        (refis : N)                    (* BlobRefPrefix that is a complete blobref, 0 = unset *)
-       (prefix : option (list N)).    (* BlobRefPrefix that is a proper prefix: given by the refs it matches *)
+       (prefix : option (list N))     (* BlobRefPrefix that is a proper prefix: given by the refs it matches *)
+       (rel : option (bool * bool * cst)).  (* PermanodeConstraint{Relation}: (parent rather than child?, All rather than Any?, sub) *)
 
 Definition avals (b : blobm) (a : N) : list N :=
   match find (fun p => N.eqb (fst p) a) (m_attrs b) with Some p => snd p | None => [] end.
@@ -40,16 +42,22 @@ Definition memN (x : N) (l : list N) : bool := existsb (N.eqb x) l.
 Definition pval_matches (v : pval) (vals : list N) : bool :=
   match v with PNone => true | PExact x => memN x vals | PIn vs => existsb (fun x => memN x vs) vals end.
 
+Definition find_blob (w : world) (r : N) : option blobm := find (fun q => N.eqb (m_ref q) r) w.
+(* the permanodes related to b over live edges: its children, or the permanodes it is a child of *)
+Definition related (w : world) (parent : bool) (b : blobm) : list N :=
+  if parent then map m_ref (filter (fun q => memN (m_ref b) (m_kids q)) w) else m_kids b.
+Definition is_nil {A} (l : list A) : bool := match l with [] => true | _ => false end.
+
 (* SPEC / matcher (genMatcher is compositional; the two coincide by construction, the theorems are about the planner) *)
-Fixpoint matches (c : cst) (b : blobm) : bool :=
+Fixpoint matches (w : world) (c : cst) (b : blobm) : bool :=
   match c with
-  | Node logical anything camli anycamli perm whole size refis prefix =>
+  | Node logical anything camli anycamli perm whole size refis prefix rel =>
       let conds :=
         (match logical with
-         | Some (OAnd, x, y) => [matches x b && matches y b]
-         | Some (OOr, x, y) => [matches x b || matches y b]
-         | Some (OXor, x, y) => [xorb (matches x b) (matches y b)]
-         | Some (ONot, x, _) => [negb (matches x b)]
+         | Some (OAnd, x, y) => [matches w x b && matches w y b]
+         | Some (OOr, x, y) => [matches w x b || matches w y b]
+         | Some (OXor, x, y) => [xorb (matches w x b) (matches w y b)]
+         | Some (ONot, x, _) => [negb (matches w x b)]
          | None => []
          end) ++
         (if anything then [true] else []) ++
@@ -62,7 +70,14 @@ Fixpoint matches (c : cst) (b : blobm) : bool :=
         (if N.eqb whole 0 then [] else [ctype_eqb (m_type b) TFile && N.eqb (m_whole b) whole]) ++
         (match size with Some (lo, hi) => [N.leb lo (m_size b) && (N.eqb hi 0 || N.leb (m_size b) hi)] | None => [] end) ++
         (if N.eqb refis 0 then [] else [N.eqb (m_ref b) refis]) ++
-        (match prefix with Some l => [memN (m_ref b) l] | None => [] end) in
+        (match prefix with Some l => [memN (m_ref b) l] | None => [] end) ++
+        (match rel with
+         | Some (parent, all, sub) =>
+             (* every related blob is looked up and given to the sub-constraint's matcher: Any = one of them matches,
+                All = there is one and all of them match *)
+             let ms := map (fun r => match find_blob w r with Some q => matches w sub q | None => false end) (related w parent b) in
+             [ctype_eqb (m_type b) TPermanode && (if all then negb (is_nil ms) && forallb (fun x => x) ms else existsb (fun x => x) ms)]
+         | None => [] end) in
       match conds with [] => false | _ => forallb (fun x => x) conds end
   end.
 
@@ -70,18 +85,20 @@ Fixpoint matches (c : cst) (b : blobm) : bool :=
    attribute needs a value constraint *)
 Fixpoint valid (c : cst) : bool :=
   match c with
-  | Node logical _ _ _ perm _ _ _ _ =>
+  | Node logical _ _ _ perm _ _ _ _ rel =>
       (match logical with
        | Some (ONot, x, _) => valid x
        | Some (_, x, y) => valid x && valid y
        | None => true end) &&
-      (match perm with Some (a, v) => N.eqb a 0 || match v with PNone => false | _ => true end | None => true end)
+      (match perm with Some (a, v) => N.eqb a 0 || match v with PNone => false | _ => true end | None => true end) &&
+      (* a relation lives inside a PermanodeConstraint *)
+      (match rel with Some _ => match perm with Some _ => true | None => false end | None => true end)
   end.
 
 (* ---- planner predicates ---- *)
 Fixpoint only_perm (c : cst) : bool :=
   match c with
-  | Node logical _ camli _ perm _ _ _ _ =>
+  | Node logical _ camli _ perm _ _ _ _ _ =>
       (match perm with Some _ => true | None => false end) || ctype_eqb camli TPermanode ||
       match logical with Some (OAnd, x, y) => only_perm x || only_perm y | _ => false end
   end.
@@ -91,7 +108,7 @@ Definition exact_type (perm : option (N * pval)) : option N :=
 
 Fixpoint perm_types (c : cst) : list N :=
   match c with
-  | Node logical _ _ _ perm _ _ _ _ =>
+  | Node logical _ _ _ perm _ _ _ _ _ =>
       match exact_type perm with
       | Some v => [v]
       | None =>
@@ -105,7 +122,7 @@ Fixpoint perm_types (c : cst) : list N :=
 
 Fixpoint at_most_one (c : cst) : N :=
   match c with
-  | Node logical _ _ _ _ _ _ refis _ =>
+  | Node logical _ _ _ _ _ _ refis _ _ =>
       if negb (N.eqb refis 0) then refis else
       match logical with
       | Some (OAnd, x, y) => if negb (N.eqb (at_most_one x) 0) then at_most_one x else at_most_one y
@@ -115,14 +132,14 @@ Fixpoint at_most_one (c : cst) : N :=
 
 Fixpoint file_by_whole (c : cst) : bool :=
   match c with
-  | Node logical _ _ _ _ whole _ _ _ =>
+  | Node logical _ _ _ _ whole _ _ _ _ =>
       (match logical with Some (OAnd, x, y) => file_by_whole x || file_by_whole y | _ => false end) || negb (N.eqb whole 0)
   end.
 
 Inductive sortt := SUnspecified | SUnsorted | SLastModDesc | SCreatedDesc | SBlobRefAsc.
 Inductive source := SrcLastMod | SrcCreated | SrcTypes (ts : list N) | SrcOne (r : N) | SrcFiles | SrcCamli (t : ctype) | SrcAll.
 
-Definition top_camli (c : cst) : ctype * bool := match c with Node _ _ camli anycamli _ _ _ _ _ => (camli, anycamli) end.
+Definition top_camli (c : cst) : ctype * bool := match c with Node _ _ camli anycamli _ _ _ _ _ _ => (camli, anycamli) end.
 
 (* plannedQuery: an unspecified sort becomes CreatedDesc for permanode-only constraints *)
 Definition planned_sort (c : cst) (s : sortt) : sortt :=
@@ -180,7 +197,7 @@ Inductive qres := QOrdered (l : list N) | QSet (l : list N) (take : option nat) 
 Definition query (w : world) (c : cst) (s0 : sortt) (limit : Z) : qres :=
   let s := planned_sort c s0 in
   let src := pick_source c s in
-  let matched := filter (matches c) (candidates w src) in
+  let matched := filter (matches w c) (candidates w src) in
   let lim (l : list blobm) := if Z.leb limit 0 then l else firstn (Z.to_nat limit) l in
   if negb (valid c) then QError else
   if src_sorted src then QOrdered (map m_ref (lim matched))
